@@ -113,12 +113,14 @@ func LooksLikeObjectOrArray(raw []byte) bool {
 func Parse(queryType string, raw []byte) (parsed, inspected, firstToken int, querySatisfied bool) {
 	p := parserPool.Get().(*parserState)
 	defer func() {
+		verifExit(p, queryType, len(raw), parsed, inspected, firstToken, querySatisfied)
 		// Avoid hanging on to too much memory in extreme input cases.
 		if len(p.currPath) > 128 {
 			p.currPath = nil
 		}
 		parserPool.Put(p)
 	}()
+	verifEnter(p)
 	p.reset()
 
 	qs := queries[queryType]
@@ -384,6 +386,7 @@ func (p *parserState) consumeObject(b []byte, qs []query, lvl int) (n int) {
 }
 
 func (p *parserState) consumeAny(b []byte, qs []query, lvl int) (n int) {
+	verifLvl(lvl)
 	// Avoid too much recursion.
 	if p.maxRecursion != 0 && lvl > p.maxRecursion {
 		return 0
